@@ -164,18 +164,25 @@ def run(tier):
             paths = [p for i, p in enumerate(paths) if len(p.split('/')) <= 4 or i % 3 == 0]
         paths = paths + sorted(special)
         for mapname, mp in maps.items():
-            for endpoint in ('engine.io', '/engine.io/', 'engine.io/'):
+            # endpoint spellings of one segment, the root endpoint (both spellings), an endpoint of
+            # two segments that lies inside the mapped directory, and ASGIApp's None (= everything)
+            for endpoint in ('engine.io', '/engine.io/', 'engine.io/', '/', '', 'static/sub', None):
                 if endpoint != 'engine.io' and mapname not in ('dir', 'none'):
                     continue
+                esegs = [x for x in (endpoint or '').split('/') if x]
+                eroot = '/' + '/'.join(esegs)
                 for has_app in (False, True):
                     if has_app and mapname not in ('dir', 'none', 'rootdir'):
                         continue
                     for gw in ('wsgi', 'asgi'):
+                        if endpoint is None and gw == 'wsgi':
+                            continue
                         app = build(engineio, gw, mp, endpoint, has_app)
                         for p in paths:
                             out = call(gw, app, p)
-                            under = p.startswith('/engine.io/')
-                            bare = p == '/engine.io'
+                            # independent of the code's normalisation: by path segments
+                            under = not esegs or p.startswith(eroot + '/')
+                            bare = bool(esegs) and p == eroot
                             m, ex, dots, esc, rel, ct = resolve(p, mapname, root)
                             rec = {'k': 'route', 'under': under, 'bare': bare, 'matches': m,
                                    'exists': ex, 'dots': dots, 'escapes': esc, 'hasapp': has_app,
